@@ -149,6 +149,11 @@ func RunTrace(prop, root string, ops []string) int {
 				}
 			}
 		}
+		if os.Getenv("VERIF_DUMP_MTP") != "" && br.OK() {
+			for _, m := range w.App.PerpetualKeeper.GetAllMTPs(w.RCtx()) {
+				fmt.Printf("   mtp %s#%d %s coll=%s liab=%s custody=%s intPaid=%s intUnpaid=%s fundPaid=%s fundRecv=%s health=%s\n", m.Address[len(m.Address)-6:], m.Id, m.Position, m.Collateral, m.Liabilities, m.Custody, m.BorrowInterestPaidCustody, m.BorrowInterestUnpaidLiability, m.FundingFeePaidCustody, m.FundingFeeReceivedCustody, m.MtpHealth)
+			}
+		}
 		if os.Getenv("VERIF_DUMP_C13") != "" && br.OK() {
 			ctx := w.RCtx()
 			for d, tot := range pendingRewards(w, ctx) {
